@@ -187,7 +187,7 @@ pub fn c03_walk_valid_32() {
     walk_valid::<32>();
 }
 
-// @harness props=C03 tier=quick panic=allow must_panic=yes
+// @harness props=C03,C08 tier=quick panic=allow must_panic=yes
 // @encodes TagIter::next on walks that leave the region or meet size < 8
 // @bound 48-byte region, all header contents whose spec walk does NOT tile the region
 #[cfg_attr(kani, kani::proof)]
@@ -223,7 +223,7 @@ pub fn c03_repeatable_56() {
     repeatable::<56>();
 }
 
-// @harness props=C03 tier=quick panic=forbid
+// @harness props=C03,C08 tier=quick panic=forbid
 // @encodes as c03_modules_56
 // @bound 32-byte region with a tiling walk (<= 3 tags); module tags of size >= 16
 #[cfg_attr(kani, kani::proof)]
